@@ -21,6 +21,7 @@ fn add<S: Subject>(jobs: &mut Vec<Box<dyn JobT>>, disc: Disc, ex: &[Class], eq_e
     jobs.push(
         job(label, q, t, { let pc = pc.clone(); move || plan_strategy(&pc) }, move |p: &Plan, st: &mut Stats| check_absorb::<S>(p, &ctx, st, &|sim: &Sim<S>, know: Bits, lin: &Lineage| explain_eq(sim, know, lin, eq_ex)))
             .decoder({ let pc = pc.clone(); move |d: &[u8]| decode_plan(&pc, d) })
+            .encoder({ let pc = pc.clone(); move |t: &Plan| encode_plan(&pc, t) })
             .floor("nontrivial", floor)
             .boxed(),
     );
